@@ -744,6 +744,39 @@ theorem haversine_zero_diag (lat lng : F) (sin_zero : sin 0 = 0) (half_zero : ha
   simp only [sub_self, rad_zero, half_zero, sin_zero, mul_zero, zero_mul, add_zero, arc_zero]
 end Haversine
 
+/-! ## the location of custom type `unknown` -/
+
+/-- when the locations use every matrix index (`d = n` distinct locations for an `n × n` matrix), the index `n * n`
+    given to the unknown location falls outside the matrix on either side of a pair, so the zero fallback answers -/
+theorem unknown_index_outside (n f t : Nat) : n * n ≤ flatIdx n f (n * n) ∧ n * n ≤ flatIdx n (n * n) t := by
+  unfold flatIdx
+  constructor
+  · omega
+  · rcases Nat.eq_zero_or_pos n with h | h
+    · subst h; simp
+    · have : n * n * 1 ≤ n * n * n := Nat.mul_le_mul_left _ h
+      omega
+
+/-- a pair with the unknown location (dense indices) is answered with the fallback: zero distance, zero duration -/
+theorem unknown_location_zero (m : MatrixData) (n : Nat) (hd : m.durations.length = n * n)
+    (hx : m.distances.length = n * n) (i : Nat) (s : Rat) (f t : Nat) (h : f = n * n ∨ t = n * n) (at_ : Rat) :
+    (Provider.agnostic n [m]).duration unknownFallback ⟨0, s⟩ f t at_ = some 0 ∧
+    (Provider.agnostic n [m]).distance unknownFallback ⟨0, s⟩ f t at_ = some 0 := by
+  have hidx : n * n ≤ flatIdx n f t := by
+    rcases h with h | h
+    · subst h; exact (unknown_index_outside n 0 t).2
+    · subst h; exact (unknown_index_outside n f 0).1
+  have h1 : m.durations[flatIdx n f t]? = none := List.getElem?_eq_none (by omega)
+  have h2 : m.distances[flatIdx n f t]? = none := List.getElem?_eq_none (by omega)
+  simp [Provider.duration, Provider.distance, durAt, distAt, h1, h2, orFallback, unknownFallback]
+
+/-- D3: with matrix indices `{0, 3}` (a 4 × 4 matrix) the unknown location gets index 2 · 2 = 4, and the pair
+    `(0, unknown)` addresses the entry of `(1, 0)` instead of the fallback -/
+theorem unknown_index_collision_witness :
+    customIndex [0, 3] = 4 ∧ flatIdx 4 0 (customIndex [0, 3]) = flatIdx 4 1 0 ∧ flatIdx 4 0 (customIndex [0, 3]) < 4 * 4 := by
+  have h : customIndex [0, 3] = 4 := by decide
+  refine ⟨h, ?_, ?_⟩ <;> rw [h] <;> decide
+
 /-! ## non-vacuity: concrete inputs that meet the hypotheses -/
 
 section examples
